@@ -519,6 +519,21 @@ def family_gpos(cat):
         cat.add("mbase", [lookup([attach("mbase", marks, bases)], gpos=True, **fl)])
     cat.add("mmark", [lookup([attach("mmark", {5: (0, 1, 2), 4: (0, 3, 4)}, {4: [(30, 40)], 5: [(9, 9)]})],
                              gpos=True)])
+    # mark-to-mark and mark-to-base under every way of filtering marks (the lookup acts only on marks its own
+    # filter keeps; the attachment glyph is the nearest preceding covered glyph), two mark classes
+    for fl in (dict(useSet=True, markSet=1), dict(useSet=True, markSet=2), dict(useSet=True, markSet=3),
+               dict(attach=1), dict(attach=2), dict(flags=["base"]), dict(flags=["lig"]), dict(flags=["mark"])):
+        cat.add("mmark", [lookup([attach("mmark", {5: (0, 1, 2), 4: (1, 3, 4)},
+                                         {4: [(30, 40), (31, 41)], 5: [(9, 9), None]})], gpos=True, **fl)])
+        cat.add("mbase", [lookup([attach("mbase", {4: (0, 10, 20), 5: (1, -5, 0)},
+                                         {1: [(100, 200), (7, 8)], 3: [None, (2, 2)]})], gpos=True, **fl)])
+    # attachment after an earlier positioning lookup moved the mark or changed the advances in between
+    cat.add("mbase", [lookup([spos({1: vr(0, 0, 25), 4: vr(0, 0, 3)})], gpos=True),
+                      lookup([attach("mbase", {4: (0, 10, 20), 5: (0, 1, 1)}, {1: [(100, 200)], 2: [(50, 60)]})], gpos=True)],
+            order=(1, 2))
+    cat.add("mmark", [lookup([attach("mbase", {4: (0, 10, 20), 5: (0, 1, 1)}, {1: [(100, 200)], 2: [(50, 60)]})], gpos=True),
+                      lookup([attach("mmark", {5: (0, 1, 2), 4: (0, 3, 4)}, {4: [(30, 40)], 5: [(9, 9)]})], gpos=True)],
+            order=(1, 2))
     # contextual positioning (GPOS 7/8): children are positioning lookups
     for fmt in (1, 2, 3):
         cat.add("ctxpos", [lookup([ctx([rule([{1}, {2}], [(0, 2), (1, 2)])], fmt=fmt)], gpos=True),
